@@ -78,7 +78,15 @@ def _cursor_after(stmts, state):
     """abstract transfer of a statement list over a SET of cursor states (branches are joined); None = not modelled.
     Accepts one state or a set; returns a set."""
     states = {state} if isinstance(state, tuple) else set(state)
+    alias = set()       # local names currently bound to the very object self._buffer
     for st in stmts:
+        if isinstance(st, ast.Assign) and len(st.targets) == 1 and isinstance(st.targets[0], ast.Name):
+            if dotted(st.value) == "self._buffer":
+                alias.add(st.targets[0].id)
+            else:
+                alias.discard(st.targets[0].id)
+        if isinstance(st, ast.Assign) and "self._buffer" in stores_to(st):
+            alias.clear()
         nxt = set()
         for (buf, off) in states:
             if isinstance(st, ast.Assign) and "self._buffer" in stores_to(st) and len(st.targets) == 1:
@@ -94,13 +102,17 @@ def _cursor_after(stmts, state):
                         nxt.add((buf, "?"))      # offset is stale until it is reset
                     else:
                         nxt.add((buf, off))
+                elif isinstance(v, ast.Call):
+                    # a freshly produced buffer (decompressor output): empty or not; the old offset means nothing for it
+                    for nb in ("E", "N"):
+                        nxt.add((nb, "Z" if off == "Z" else "?"))
                 else:
                     return None
             elif isinstance(st, ast.Assign) and "self._buffer_offset" in stores_to(st) and len(st.targets) == 1:
                 v = st.value
                 if is_const(v, 0):
                     nxt.add((buf, "Z"))
-                elif unparse(v) == "len(self._buffer)":
+                elif unparse(v) == "len(self._buffer)" or (isinstance(v, ast.Call) and call_name(v) == "len" and len(v.args) == 1 and isinstance(v.args[0], ast.Name) and v.args[0].id in alias):
                     nxt.add((buf, "Z" if buf == "E" else "L"))
                 else:
                     return None
@@ -117,8 +129,6 @@ def _cursor_after(stmts, state):
             else:
                 nxt.add((buf, off))
         states = nxt
-    if any(off == "?" for (_, off) in states):
-        return None
     return states
 
 
@@ -399,6 +409,39 @@ def cursor(ctx):
     for fn in (f, ra):
         j = [r for r in nodes_of_type(fn, ast.Return) if isinstance(r.value, ast.Call) and unparse(r.value) == "b''.join(blocks)"]
         ctx.check(bool(j), j[0] if j else fn, "%s returns the concatenation of the collected blocks in order" % fn.name)
+    # the cursor through _fill_buffer itself: entered with "nothing unread" (the states the consumers leave behind that
+    # satisfy the refill test), it must answer False (EOF) without making consumed bytes readable again, and answer
+    # True only with fresh data at offset 0
+    fbl = _loops(fb)
+    kind = _refill_test_kind(fbl[0].test) if fbl else None
+    if kind is not None:
+        entry = {("E", "Z")}
+        wb = [a_ for a_ in nodes_of_type(f, ast.Assign) if "data" in stores_to(a_) and dotted(a_.value) == "self._buffer"]
+        for a_ in wb:
+            blk_ = parent(a_).body if a_ in getattr(parent(a_), "body", []) else parent(a_).orelse
+            r_ = _cursor_after(blk_, ("N", "Z"))
+            entry |= {x for x in (r_ or ()) if _refill_test_holds(kind, x)}
+        if lpa:
+            r_ = _cursor_after(lpa[0].body, ("N", "Z"))
+            entry |= {x for x in (r_ or ()) if _refill_test_holds(kind, x)}
+        body = fbl[0].body
+        trs = [x for x in body if isinstance(x, ast.Try)]
+        if len(trs) != 1:
+            raise Undecidable("_fill_buffer's loop body is not `statements, one try, statements`")
+        tr_ = trs[0]
+        pre, post = body[:body.index(tr_)], body[body.index(tr_) + 1:]
+        hs_ = [h_ for h_ in tr_.handlers if handler_catches(h_, ["EOFError"])]
+        eof = _cursor_after(pre + tr_.body + (hs_[0].body if hs_ else []), entry)
+        ref = _cursor_after(pre + tr_.body + tr_.orelse + post, entry)
+        if eof is None or ref is None:
+            raise Undecidable("_fill_buffer writes the cursor in a way the abstract cursor does not model")
+        stale = sorted(x for x in eof if x[0] == "N" and x[1] in ("Z", "M", "?"))
+        ctx.check(not stale, hs_[0] if hs_ else fb, "at end of file the cursor states %s expose no consumed bytes again" % sorted(eof),
+                  "when _fill_buffer answers EOF the cursor can be %s: the last block, already delivered, is readable again (read/readline/readinto at EOF return stale bytes, tell() passes the size)" % stale)
+        # leaving the loop with data: refill test false => buffer N; its offset must be 0
+        out = sorted(x for x in ref if not _refill_test_holds(kind, x))
+        ctx.check(all(x == ("N", "Z") for x in out) and bool(out), fbl[0], "data is announced only as a fresh non-empty buffer read from offset 0",
+                  "after a refill the cursor can be %s when _fill_buffer answers True: bytes of the new block are skipped or the offset is stale" % [x for x in out if x != ("N", "Z")])
 
 
 def pos(ctx):
